@@ -14,7 +14,7 @@ From PJ Require Import Base.Prelude Graph.Model Graph.Invariant Graph.OracleProo
 From PJ Require Import Graph.LinksProofs.
 Local Open Scope nat_scope.
 
-(* ---- one call, any of the 24 operation kinds, accepted or rejected ---- *)
+(* ---- one call, any of the 26 operation kinds, accepted or rejected ---- *)
 Theorem C01_step : forall s o, WF s -> pub_args s o = true -> WF (fst (step s o)).
 Proof. exact StepProofs.step_WF. Qed.
 
@@ -107,6 +107,23 @@ Example C01_demo_rejections :
   = [(true, 1); (true, 1); (true, 1); (true, 1); (true, 1)].
 Proof. vm_compute. reflexivity. Qed.
 
+(* bulk assignment on a task list inside a public history: a WBS with root tasks 1, 2, free tasks 3, 4, 3 depends on
+   4; [1; 2].children = [3; 2] (rejected by the second element after the first took both), [1; 2].children = [3]
+   (accepted: 3 ends below 2), [1; 2].successors = [4] (accepted), [3; 4].predecessors = [1; 4] (rejected by the
+   second element): well-formed at every prefix *)
+Definition bulk_ops : list op :=
+  [NewWbs; NewTask 1%Z None [] None; NewTask 2%Z None [] None; NewTask 3%Z None [] None; NewTask 4%Z None [] None;
+   SetChildren 0 [Some 1; Some 2]; SetLinks true 3 [Some 4];
+   LstSetChildren [1; 2] [Some 3; Some 2]; LstSetChildren [1; 2] [Some 3];
+   LstSetLinks false [1; 2] [Some 4]; LstSetLinks true [3; 4] [Some 1; Some 4]].
+
+Example C01_bulk_nonvacuous :
+  pub_run init bulk_ops /\ forallb (fun n => wf_b (run init (firstn n bulk_ops))) (seq 0 12) = true /\
+  map (fun n => outcome_code (snd (step (run init (firstn n bulk_ops)) (nth n bulk_ops NewWbs)))) [7; 8; 9; 10] = [1; 0; 0; 1] /\
+  kids (get (hp (run init bulk_ops)) 2) = [3] /\ succs (get (hp (run init bulk_ops)) 1) = [4] /\
+  preds (get (hp (run init bulk_ops)) 4) = [1; 2] /\ preds (get (hp (run init bulk_ops)) 3) = [4].
+Proof. vm_compute. repeat split; reflexivity. Qed.
+
 Print Assumptions C01_step.
 Print Assumptions C01_step_shape.
 Print Assumptions C01_public_stays_public.
@@ -121,3 +138,4 @@ Print Assumptions C01_nonvacuous.
 Print Assumptions C01_demo_wf.
 Print Assumptions C01_illformed_rejected_by_wf_b.
 Print Assumptions C01_demo_rejections.
+Print Assumptions C01_bulk_nonvacuous.
